@@ -7,6 +7,7 @@
 #[macro_use]
 pub mod sym;
 pub mod gen;
+pub mod cat;
 pub mod model;
 
 #[cfg(feature = "c00")]
@@ -19,6 +20,8 @@ pub mod c02;
 pub mod c03;
 #[cfg(feature = "c04")]
 pub mod c04;
+#[cfg(feature = "c04")]
+pub mod c04_auto;
 #[cfg(feature = "c05")]
 pub mod c05;
 #[cfg(feature = "c06")]
